@@ -212,6 +212,32 @@ var vrtExternals = map[string]externalFn{
 		doAssert(fr, false, argStr(args[0]))
 		return nil
 	},
+	"Settle": func(fr *frame, args []value) value {
+		if s := fr.i.sched; s != nil {
+			s.block(fr, "settle", func() bool { return !s.othersEnabled() })
+		}
+		return nil
+	},
+	"Resources": func(fr *frame, args []value) value {
+		fds := 0
+		for _, p := range fr.i.pipes {
+			if !p.wclosed {
+				fds++
+			}
+			if !p.rclosed {
+				fds++
+			}
+		}
+		gs := 0
+		if s := fr.i.sched; s != nil {
+			for _, g := range s.gs {
+				if !g.done && g != s.cur {
+					gs++
+				}
+			}
+		}
+		return tuple{fds, gs}
+	},
 	"TempDir": func(fr *frame, args []value) value { return "/vfs" },
 	"WriteFile": func(fr *frame, args []value) value {
 		path, ok := args[0].(string)
